@@ -24,7 +24,7 @@ import (
 func init() { cmds["styleprop"] = cmdStyleProp }
 
 // spX: the look a source document carries; every field is present for every source (uniform JSON records), a
-// source only uses its own: srt b i u col | vtt tags align pos line | ttml col talign | stl jc vp mnr dsc it un bx
+// source only uses its own: srt b i u col | vtt tags align pos line voice | ssa voice | ttml col talign | stl jc vp mnr dsc it un bx
 type spX struct {
 	B      bool     `json:"b"`
 	I      bool     `json:"i"`
@@ -42,6 +42,7 @@ type spX struct {
 	It     bool     `json:"it"`
 	Un     bool     `json:"un"`
 	Bx     bool     `json:"bx"`
+	Voice  string   `json:"voice"`
 }
 
 type spCase struct {
@@ -74,8 +75,9 @@ type spSA struct {
 }
 
 type spLook struct {
-	Cue spSA `json:"cue"`
-	Run spSA `json:"run"`
+	Cue   spSA   `json:"cue"`
+	Run   spSA   `json:"run"`
+	Voice string `json:"voice"` // VoiceName of the first line
 }
 
 type spEvent struct {
@@ -130,6 +132,9 @@ func spSource(src string, x spX) ([]byte, error) {
 		if x.Pos != "" {
 			h += " position:" + x.Pos
 		}
+		if x.Voice != "" {
+			t = "<v " + x.Voice + ">" + t
+		}
 		return []byte("WEBVTT\n\n" + h + "\n" + t + "\n"), nil
 	case "ttml":
 		p, s := "", ""
@@ -145,7 +150,7 @@ func spSource(src string, x spX) ([]byte, error) {
 	case "ssa":
 		return []byte("[Script Info]\nScriptType: v4.00\n\n[V4 Styles]\nFormat: Name, Fontname, Fontsize\nStyle: Default,Arial,20\n\n" +
 			"[Events]\nFormat: Marked, Start, End, Style, Name, MarginL, MarginR, MarginV, Effect, Text\n" +
-			"Dialogue: Marked=0,0:00:01.00,0:00:03.00,Default,,0,0,0,," + spText + "\n"), nil
+			"Dialogue: Marked=0,0:00:01.00,0:00:03.00,Default," + x.Voice + ",0,0,0,," + spText + "\n"), nil
 	case "stl":
 		var tf []int
 		if x.It {
@@ -259,6 +264,9 @@ func spLookOf(s *astisub.Subtitles) spLook {
 	}
 	it := s.Items[0]
 	l.Cue = spObserve(it.InlineStyle)
+	if len(it.Lines) > 0 {
+		l.Voice = it.Lines[0].VoiceName
+	}
 	for _, ln := range it.Lines {
 		for _, li := range ln.Items {
 			if strings.TrimSpace(li.Text) != "" {
